@@ -90,6 +90,13 @@ def fresh_run(pipeline, frame, pattern_params, peaks, b, upsample, backend, cent
 def run_case(kind, params):
     msgs = []
     rng = np.random.default_rng(params["seed"])
+    if kind == "isolated":
+        # (worker process) only the LAST call of the history, in an interpreter that has not processed anything before; the
+        # outputs are handed back as text
+        import json as _json
+        q_ = dict(params, _only_last=True, _dump=[])
+        m_ = run_case("history", q_)
+        return ["OUT " + _json.dumps(q_["_dump"])] + m_
     if kind == "history":
         pp = params["pattern"]
         pattern = impl.pattern_from(pp)
@@ -114,7 +121,9 @@ def run_case(kind, params):
             peaks = np.asarray(peaks, dtype=np.int64)
             n = len(peaks)
             outs = tuple(a[:n] for a in shared)
-            us = params["upsample"]
+            us = params["upsample"] if not params.get("upsamples") else params["upsamples"][callno]
+            if params.get("_only_last") and callno < len(params["peaks"]) - 1:
+                continue
             try:
                 if pipeline == "fast":
                     impl.run_fast(frame, pattern, peaks, upsample=us, crop_function=cf,
@@ -126,6 +135,8 @@ def run_case(kind, params):
             except Exception as e:
                 msgs.append(f"call#{callno}: raised {type(e).__name__}: {e}")
                 break
+            if params.get("_dump") is not None and callno == len(params["peaks"]) - 1:
+                params["_dump"].extend([np.asarray(a, dtype=np.float64).tolist() for a in outs])
             for name, a, r in zip(("centers", "refineds", "heights", "elevations"), outs, ref):
                 if not np.array_equal(a, r, equal_nan=True):
                     bad = np.argwhere(~np.isclose(a, r, rtol=0, atol=0, equal_nan=True))[:3].tolist()
@@ -294,6 +305,38 @@ def search(ctx, boost=1, focus=()):
                             [2 * (h0 // 2) + 1, 2 * (w0 // 2) + 1], [h0, w0 - 1 if w0 > 2 else w0 + 1]]
         ctx.oracle_case("requery", p, run_case("requery", p))
         ctx.count("requery")
+    # the last call of a history compared with the same call in a FRESH interpreter (module-level state is state, too): earlier
+    # calls use other upsampling factors with the same buffers / shapes
+    import json as _json
+    import common as _common
+    iso = []
+    for k in range(2 * boost):
+        p = gen_history(rng, 4 * k + (0 if k % 2 else 2))          # fast and full alternate
+        while len(p["peaks"]) < 3:
+            p["peaks"].append(p["peaks"][-1])
+            p["frame_kinds"].append("poisson")
+        p["upsamples"] = [[10, 4, 7, True, 5, 3][(k + j) % 6] for j in range(len(p["peaks"]))]
+        iso.append(p)
+    try:
+        res = _common.run_in_mode(PROP, {}, [("isolated", p) for p in iso])
+    except Exception as e:      # noqa: BLE001
+        res = None
+        ctx.count("isolated_worker_failed")
+    for p, r_ in zip(iso, res or []):
+        q_ = dict(p, _dump=[])
+        msgs = run_case("history", q_)
+        if r_ and r_[0].startswith("OUT "):
+            want = _json.loads(r_[0][4:])
+            for name, a, b in zip(("centers", "refineds", "heights", "elevations"), q_["_dump"], want):
+                if not np.array_equal(np.asarray(a), np.asarray(b), equal_nan=True):
+                    msgs.append(f"{p['pipeline']}/{p['backend']}: {name} of the last call of a history (upsampling factors "
+                                f"{p['upsamples']}) differ from the same call in a fresh interpreter: "
+                                f"{np.asarray(a).ravel()[:4].tolist()} vs {np.asarray(b).ravel()[:4].tolist()}")
+                    break
+        else:
+            msgs.append(f"isolated run failed: {str(r_)[:200]}")
+        ctx.oracle_case("history", {k_: v_ for k_, v_ in p.items()}, msgs, nontrivial=True)
+        ctx.count("history_vs_fresh_interpreter")
     hows = {"rgbs": ("inplace", "rebind_array", "delta", "scalars"), "user": ("inplace", "rebind")}
     for k in range((60 if thorough else 20) * boost):
         pat = impl.pattern_params(rng, kinds=("rgbs", "user", "rgbs", "circular", "radial_gradient", "background_subtraction"),
